@@ -17,6 +17,7 @@ CHECKS = {
     "C39": "archive",
     "C17": "pcode",
     "C18": "linegrammar",
+    "C10": "engine", "C11": "engine", "C12": "engine",
     "C06": "engine", "C07": "engine", "C08": "engine", "C09": "engine", "C13": "engine",
 }
 
@@ -166,4 +167,22 @@ CLAIMS = {
             "All corpus runs (RunState graph schedules, random schedules over methods with unknown instructions, failing UOD "
             "commands, bad arguments, injected snippets, hardware within its domain).",
             "Trusted: virtual time (engine.tick called directly, NullTimer), instrumented UOD + recording hardware, node-flag recorder; requests are applied between ticks. The RunState behaviours are input schedules, the verdict is the monitor's named clauses on the observed state. Malformed-text classes are extended with the interpreter corpus.", "7 C13"),
+    "C10": (MC, "TLA+ design spec Commands.tla (NoInstanceAfterStop etc.; TLC) + monitor CommandsTrace.tla on the engine corpus: "
+                "clean-up clauses evaluated whenever a run ends (Stop, method Stop, Restart)",
+            "Corpus runs stop/restart at arbitrary ticks with long-running, overlapping and failing UOD commands, timed Pause/Hold and "
+            "Simulate: at run end no UOD instance is left, no tag is simulated, the run id is cleared, the run-stopped message "
+            "(built by the real EngineMessageBuilder in on_stop) can be produced and closes every UOD command that started; a new "
+            "run starts from line 1.",
+            "Trusted: virtual time, instrumented UOD (init/exec/finalize logged with instance ids), recording hardware, node-flag recorder; requests applied between ticks.", "6.3, 7 C10"),
+    "C11": (MC, "Commands.tla invariants NoTwoConflictingExecuting / InitOnceBeforeExec / FinalizeExactlyOnce (TLC, all request / "
+                "exec / cancel / stop interleavings of 3 commands) + monitor CommandsTrace.tla on the UOD call log of the corpus",
+            "Per tick no two instances of one command and no two overlapping commands execute; init once before the first exec; "
+            "no exec after finalize; finalize once and only after init; everything initialized is finalized when the run ends.",
+            "Trusted: virtual time, instrumented UOD (init/exec/finalize logged with instance ids), recording hardware, node-flag recorder; requests applied between ticks.", "6.3, 7 C11"),
+    "C12": (MC, "monitor CommandsTrace.tla on the cancel / force requests of the corpus (random item ids at random ticks)",
+            "A request is accepted iff the latest run log offers the item as cancellable / forcible (named by request and item "
+            "kind); a rejected request changes nothing observable; an accepted cancel of a Watch: its body never starts; of a timed "
+            "Pause / Hold: the pause / hold ends (unless the user also paused / held); of a UOD command: it is finalized; an "
+            "accepted force of a Watch / Wait / threshold line proceeds within two running ticks.",
+            "Trusted: virtual time, instrumented UOD (init/exec/finalize logged with instance ids), recording hardware, node-flag recorder; requests applied between ticks.", "6.3, 7 C12"),
 }
